@@ -32,6 +32,7 @@ def check_isolation(ctx):
     g = c.args[1] if len(c.args) > 1 else None
     okg = isinstance(g, (ast.GeneratorExp, ast.ListComp)) and len(g.generators) == 1 and not g.generators[0].ifs and u(g.generators[0].iter) == recs and u(g.elt) == f'{u(g.generators[0].target)}.seq'
     rep.add('F1', fi.site(c), 'each record is handed over as its own sequence: one element per record, nothing filtered or merged', okg, expected=f'(record.seq for record in {recs})', found=u(g), stmt='per-record generator')
+    rep.account_returns('F1', fi, [st] if isinstance(st, ast.Return) else [], 'file signature')
     rep.add('F1', fi.site(c), 'the file is searched with the given parameters and the optional caller accumulator', u(c.args[0]) == kp and u(get_kw(c, 'accumulator')) == 'accumulator', expected=f'calc_signature({kp}, ..., accumulator=accumulator)',
             found=u(c)[:80], stmt='calc_signature operands')
     # no concatenation anywhere between the records and the search
@@ -133,6 +134,7 @@ def check_compression(ctx):
             and atoms(ie.test) == {('eq', "'t'", f'{md}[1]')}
     rep.add('F4', fa.site(rets[0] if rets else None), 'text mode wraps the (decompressed) stream in a TextIOWrapper with universal newlines (LF and CRLF equivalent)', okt, expected="TextIOWrapper(<binary stream>, **kwargs) if mode[1] == 't' else <binary stream>",
             found=[u(r.value) for r in rets], stmt='text wrapper')
+    rep.account_returns('F4', fa, rets[:1], 'opened stream')
     rs = [s for s in stmts_in(fa.node.body) if isinstance(s, ast.Raise)]
     rep.add('F4', fa.site(rs[0] if rs else None), 'auto detection is for reading only', any(('ne', "'r'", f'{md}[0]') in path_atoms(gma[r]) for r in rs), expected="raise when mode[0] != 'r'", found=[sorted(path_atoms(gma[r])) for r in rs], stmt='read only')
     fg = m.func('gambit.util.io.guess_compression')
@@ -164,6 +166,7 @@ def check_parse(ctx):
     rep.add('F5', fp.site(sp[0] if sp else None), "records are produced by Biopython's parser for the file's declared format", okp, expected=f'SeqIO.parse({fv}, self.format)', found=[u(c) for c in sp], stmt='SeqIO.parse')
     rets = [s for s in stmts_in(fp.node.body) if isinstance(s, ast.Return)]
     okr = len(rets) == 1 and isinstance(rets[0].value, ast.Call) and u(rets[0].value.func) == 'ClosingIterator' and len(rets[0].value.args) == 2 and u(rets[0].value.args[1]) == fv
+    rep.account_returns('F5', fp, rets[:1], 'record iterator')
     rep.add('F5', fp.site(rets[0] if rets else None), 'the record iterator owns the stream (closes it on exhaustion / context exit)', okr, expected=f'ClosingIterator(records, {fv})', found=[u(r.value) for r in rets], stmt='closing iterator')
     tr = [s for s in stmts_in(fp.node.body) if isinstance(s, ast.Try)]
     okt = len(tr) == 1 and any(any(isinstance(x, ast.Expr) and u(x.value) == f'{fv}.close()' for x in h.body) and isinstance(h.body[-1], ast.Raise) and h.body[-1].exc is None for h in tr[0].handlers)
